@@ -945,6 +945,17 @@ func (r *replayer) read(beh []step, idx int) {
 	params := r.s.params(r.w, a)
 	raw := map[string]map[string]any{}
 	shape := idShape(a, len(st.Chain))
+	switch a.Name {
+	case "getTransactionByHash", "getTransactionReceipt", "getTransactionStatus":
+		switch {
+		case a.T == 99:
+			shape = "tx-unknown"
+		case st.Want.Kind == "err":
+			shape = "tx-dropped" // once stored, reverted and not re-included by the fork
+		default:
+			shape = "tx-held"
+		}
+	}
 	for _, v := range versions {
 		resp, req, err := r.s.call(v, a.Name, params)
 		if err != nil {
